@@ -68,7 +68,7 @@ fn c14_all() {
         ("package p; enum E {", ["A = 1,", "B,", "C = \"c\","], ",", "}"),
     ];
     // malformed members (without their terminator): none contains `;` `{` `}` (nor `,` - used for all three body kinds)
-    let garbage = ["int", "void f(", "= 3", "in out", "String String x", "x y z", "void f(int a", "const int", "123", "\"str\"", "List<", "-", "f()", "oneway", "void f(int)) = 2", "int 5x", "\u{e9}", "@", "x = = 1", ")", "void void", "import a.b", "package q"];
+    let garbage = ["int", "void f(", "= 3", "in out", "String String x", "x y z", "void f(int a", "const int", "123", "\"str\"", "List<", "-", "f()", "oneway", "void f(int)) = 2", "int 5x", "\u{e9}", "@", "x = = 1", ")", "void void", "import a.b", "package q", "void interface foo()", "parcelable Inner", "enum", "interface I", "oneway interface", "x enum y"];
     let mut out: Vec<String> = Vec::new();
     let mut evals = 0usize;
     for (head, sibs, term, close) in bodies.iter() {
@@ -114,7 +114,9 @@ fn c14_all() {
     }
     let total = out.len();
     out.sort(); out.dedup();
-    for w in out.iter().take(40) { println!("{}", w.chars().take(700).collect::<String>()); }
-    println!("ORACLE-STATS evaluations={} distinct={} rule=one body with one malformed member each: 3 body kinds x 2 layouts x 23 malformed members x 4 positions among 3 well-formed siblings; tree present, siblings' shape unchanged, at least one Error, every Error inside the malformed member's extent (witness lines: {})", evals, evals, total);
+    // lines of the recorded finding (unlexable character) last and capped separately, so that they never crowd out anything else
+    for w in out.iter().filter(|w| !w.contains("(unlexable character)")).take(60) { println!("{}", w.chars().take(700).collect::<String>()); }
+    for w in out.iter().filter(|w| w.contains("(unlexable character)")).take(8) { println!("{}", w.chars().take(700).collect::<String>()); }
+    println!("ORACLE-STATS evaluations={} distinct={} rule=one body with one malformed member each: 3 body kinds x 2 layouts x 29 malformed members x 4 positions among 3 well-formed siblings; tree present, siblings' shape unchanged, at least one Error, every Error inside the malformed member's extent (witness lines: {})", evals, evals, total);
     assert!(out.is_empty(), "witness found");
 }
